@@ -1,1 +1,861 @@
-// harnesses for module xargs (included into /repo under cfg(kani))
+// C04 (limiters), C05 (whitespace reader, delimiter operand), C06 (system budget), C19 (classification, exit-code map).
+include!(concat!(env!("FINDUTILS_VERIF_DIR"), "/harness/common_stubs.rs"));
+use super::*;
+
+// ------------------------------------------------------------------------------------------ C04 limiters
+struct Tail { accept: bool }
+impl CommandSizeLimiter for Tail {
+    fn try_arg(&mut self, arg: Argument, _c: LimiterCursor<'_>) -> Result<Argument, ExhaustedCommandSpace> {
+        if self.accept { Ok(arg) } else { Err(ExhaustedCommandSpace { arg, out_of_chars: false }) }
+    }
+    fn dyn_clone(&self) -> Box<dyn CommandSizeLimiter> { Box::new(Tail { accept: self.accept }) }
+}
+fn any_kind() -> ArgumentKind { match kani::any::<u8>() % 3 { 0 => ArgumentKind::Initial, 1 => ArgumentKind::HardTerminated, _ => ArgumentKind::SoftTerminated } }
+/// A real OsString argument of 1..=3 bytes (fixed shapes, symbolic choice).
+fn any_arg(kind: ArgumentKind) -> (Argument, usize) {
+    let which: u8 = kani::any();
+    let (s, n) = match which % 3 { 0 => ("a", 1usize), 1 => ("ab", 2), _ => ("abc", 3) };
+    (Argument { arg: OsString::from(s), kind }, n)
+}
+
+// @harness props=C04 tier=quick cost=10
+// @exec MaxCharsCommandSizeLimiter::try_arg, count_osstr_chars_for_exec, LimiterCursor::try_next
+// @sym limiter state and limit (full usize, invariant current_size <= max_chars), argument of 1..3 bytes and any kind, next limiter accepts or rejects
+// @bounds one step from an arbitrary valid state (inductive step over histories of any length)
+// @witness cur:usize max:usize accept:bool kind:u8 which:u8
+// @replay limiter_chars
+/// -s: an argument is admitted iff its bytes + 1 still fit and every later limiter admits it; the state grows by exactly
+/// bytes + 1 on admission and is untouched otherwise; out_of_chars is reported only when -s itself is the reason.
+#[kani::proof]
+#[kani::unwind(5)]
+#[kani::stub(alloc::fmt::format, fmt_stub)]
+#[kani::stub(alloc::raw_vec::handle_error, he_stub)]
+#[kani::stub(std::alloc::handle_alloc_error, hae_stub)]
+fn c04_limiter_step_chars() {
+    let cur: usize = kani::any(); let max: usize = kani::any();
+    kani::assume(cur <= max && max < usize::MAX - 8);
+    let mut l = MaxCharsCommandSizeLimiter { current_size: cur, max_chars: max };
+    let accept: bool = kani::any();
+    let mut tail: [Box<dyn CommandSizeLimiter>; 1] = [Box::new(Tail { accept })];
+    let (arg, n) = any_arg(any_kind());
+    let r = l.try_arg(arg, LimiterCursor { limiters: &mut tail[..] });
+    let fits = cur + n + 1 <= max;
+    match &r {
+        Ok(a) => { assert!(fits && accept); assert!(l.current_size == cur + n + 1); assert!(l.current_size <= l.max_chars); assert!(a.arg.len() == n); }
+        Err(e) => { assert!(!fits || !accept); assert!(l.current_size == cur); assert!(e.out_of_chars == !fits); assert!(e.arg.arg.len() == n); }
+    }
+    assert!(l.max_chars == max);
+    kani::cover!(r.is_ok() && cur + n + 1 == max);
+    kani::cover!(r.is_err() && fits);
+    kani::cover!(r.is_err() && !fits && cur + n == max);
+    std::mem::forget(r); std::mem::forget(tail);
+}
+#[kani::proof]
+#[kani::unwind(5)]
+#[kani::stub(alloc::fmt::format, fmt_stub)]
+#[kani::stub(alloc::raw_vec::handle_error, he_stub)]
+#[kani::stub(std::alloc::handle_alloc_error, hae_stub)]
+fn c04_limiter_step_chars_canary() {
+    let cur: usize = kani::any(); let max: usize = kani::any();
+    kani::assume(cur <= max && max < usize::MAX - 8);
+    let mut l = MaxCharsCommandSizeLimiter { current_size: cur, max_chars: max };
+    let mut tail: [Box<dyn CommandSizeLimiter>; 1] = [Box::new(Tail { accept: true })];
+    let r = l.try_arg(Argument { arg: OsString::from("ab"), kind: ArgumentKind::SoftTerminated }, LimiterCursor { limiters: &mut tail[..] });
+    assert!(r.is_ok() == (cur + 2 <= max)); // forgets the terminator: must FAIL
+    std::mem::forget(r); std::mem::forget(tail);
+}
+
+// @harness props=C04 tier=quick cost=10
+// @exec MaxArgsCommandSizeLimiter::try_arg, MaxLinesCommandSizeLimiter::try_arg, LimiterCursor::try_next
+// @sym limiter state and limit (full usize under the invariant), argument kind, next limiter accepts or rejects
+// @bounds one step from an arbitrary valid state
+/// -n counts appended (non-initial) arguments, -L counts hard-terminated arguments (input lines); both admit only while the
+/// limit still holds, change state only on admission, and never report out_of_chars.
+#[kani::proof]
+#[kani::unwind(5)]
+#[kani::stub(alloc::fmt::format, fmt_stub)]
+#[kani::stub(alloc::raw_vec::handle_error, he_stub)]
+#[kani::stub(std::alloc::handle_alloc_error, hae_stub)]
+fn c04_limiter_step_args_lines() {
+    let cur: usize = kani::any(); let max: usize = kani::any();
+    kani::assume(max >= 1 && max < usize::MAX - 2 && cur <= max);
+    let accept: bool = kani::any();
+    let kind = any_kind();
+    let is_initial = kind == ArgumentKind::Initial; let is_hard = kind == ArgumentKind::HardTerminated;
+    let mut tail: [Box<dyn CommandSizeLimiter>; 1] = [Box::new(Tail { accept })];
+    let which: bool = kani::any();
+    if which {
+        let mut l = MaxArgsCommandSizeLimiter { current_args: cur, max_args: max };
+        let r = l.try_arg(Argument { arg: OsString::from("a"), kind }, LimiterCursor { limiters: &mut tail[..] });
+        match &r {
+            Ok(_) => { assert!(cur < max && accept); assert!(l.current_args == cur + if is_initial { 0 } else { 1 }); assert!(l.current_args <= max); }
+            Err(e) => { assert!(l.current_args == cur); assert!(!e.out_of_chars); assert!(cur >= max || !accept); }
+        }
+        kani::cover!(r.is_ok() && cur + 1 == max && !is_initial);
+        kani::cover!(r.is_err() && cur == max);
+        std::mem::forget(r);
+    } else {
+        kani::assume(cur >= 1 && cur <= max + 1);
+        let mut l = MaxLinesCommandSizeLimiter { current_line: cur, max_lines: max };
+        let r = l.try_arg(Argument { arg: OsString::from("a"), kind }, LimiterCursor { limiters: &mut tail[..] });
+        match &r {
+            Ok(_) => { assert!(cur <= max && accept); assert!(l.current_line == cur + if is_hard { 1 } else { 0 }); assert!(l.current_line <= max + 1); }
+            Err(e) => { assert!(l.current_line == cur); assert!(!e.out_of_chars); assert!(cur > max || !accept); }
+        }
+        kani::cover!(r.is_ok() && cur == max && is_hard);
+        kani::cover!(r.is_ok() && !is_hard);
+        std::mem::forget(r);
+    }
+    std::mem::forget(tail);
+}
+#[kani::proof]
+#[kani::unwind(5)]
+#[kani::stub(alloc::fmt::format, fmt_stub)]
+#[kani::stub(alloc::raw_vec::handle_error, he_stub)]
+#[kani::stub(std::alloc::handle_alloc_error, hae_stub)]
+fn c04_limiter_step_args_lines_canary() {
+    let cur: usize = kani::any(); let max: usize = kani::any();
+    kani::assume(max >= 1 && max < usize::MAX - 2 && cur >= 1 && cur <= max);
+    let mut tail: [Box<dyn CommandSizeLimiter>; 1] = [Box::new(Tail { accept: true })];
+    let mut l = MaxLinesCommandSizeLimiter { current_line: cur, max_lines: max };
+    let r = l.try_arg(Argument { arg: OsString::from("a"), kind: ArgumentKind::SoftTerminated }, LimiterCursor { limiters: &mut tail[..] });
+    assert!(l.current_line == cur + 1); // a blank-terminated argument does not end a line: must FAIL
+    std::mem::forget(r); std::mem::forget(tail);
+}
+
+// @harness props=C04 tier=quick cost=15
+// @exec LimiterCollection::{try_arg,clone}, LimiterCursor::try_next, the three limiters chained in do_xargs' order (-n, -L, -s)
+// @sym all three states and limits (bounded so that sums cannot wrap), argument of 1..3 bytes, kind
+// @bounds one step; chain shape -n,-L,-s fixed (concrete vtables), values symbolic
+/// The chain admits an argument iff every limiter admits it; on rejection no limiter's state changed; out_of_chars iff -s was
+/// the (first) reason; a clone carries the same state.
+#[kani::proof]
+#[kani::unwind(5)]
+#[kani::stub(alloc::fmt::format, fmt_stub)]
+#[kani::stub(alloc::raw_vec::handle_error, he_stub)]
+#[kani::stub(std::alloc::handle_alloc_error, hae_stub)]
+fn c04_chain_step() {
+    let (ca, ma): (usize, usize) = (kani::any(), kani::any());
+    let (cl, ml): (usize, usize) = (kani::any(), kani::any());
+    let (cs, ms): (usize, usize) = (kani::any(), kani::any());
+    kani::assume(ma >= 1 && ma < 1000 && ca <= ma && ml >= 1 && ml < 1000 && cl >= 1 && cl <= ml + 1 && ms < 100_000 && cs <= ms);
+    let mut c = LimiterCollection { limiters: vec![
+        Box::new(MaxArgsCommandSizeLimiter { current_args: ca, max_args: ma }),
+        Box::new(MaxLinesCommandSizeLimiter { current_line: cl, max_lines: ml }),
+        Box::new(MaxCharsCommandSizeLimiter { current_size: cs, max_chars: ms }),
+    ] };
+    let kind = if kani::any() { ArgumentKind::HardTerminated } else { ArgumentKind::SoftTerminated };
+    let hard = kind == ArgumentKind::HardTerminated;
+    let (arg, n) = any_arg(kind);
+    let r = c.try_arg(arg);
+    let fits_n = ca < ma; let fits_l = cl <= ml; let fits_s = cs + n + 1 <= ms;
+    // observe the states through a second, probing step on a clone (fields are private to each limiter type)
+    let c2 = c.clone();
+    match &r {
+        Ok(_) => assert!(fits_n && fits_l && fits_s),
+        Err(e) => { assert!(!(fits_n && fits_l && fits_s)); assert!(e.out_of_chars == (fits_n && fits_l && !fits_s)); }
+    }
+    assert!(c.limiters.len() == 3 && c2.limiters.len() == 3);
+    kani::cover!(r.is_ok() && hard);
+    kani::cover!(r.is_err() && fits_n && fits_l);
+    kani::cover!(r.is_err() && !fits_n && !fits_s);
+    std::mem::forget(r); std::mem::forget(c); std::mem::forget(c2);
+}
+#[kani::proof]
+#[kani::unwind(5)]
+#[kani::stub(alloc::fmt::format, fmt_stub)]
+#[kani::stub(alloc::raw_vec::handle_error, he_stub)]
+#[kani::stub(std::alloc::handle_alloc_error, hae_stub)]
+fn c04_chain_step_canary() {
+    let (ca, ma): (usize, usize) = (kani::any(), kani::any());
+    let (cs, ms): (usize, usize) = (kani::any(), kani::any());
+    kani::assume(ma >= 1 && ma < 1000 && ca <= ma && ms < 100_000 && cs <= ms);
+    let mut c = LimiterCollection { limiters: vec![
+        Box::new(MaxArgsCommandSizeLimiter { current_args: ca, max_args: ma }),
+        Box::new(MaxCharsCommandSizeLimiter { current_size: cs, max_chars: ms }),
+    ] };
+    let r = c.try_arg(Argument { arg: OsString::from("ab"), kind: ArgumentKind::SoftTerminated });
+    assert!(r.is_ok() == (ca < ma)); // ignores -s: must FAIL
+    std::mem::forget(r); std::mem::forget(c);
+}
+
+// @harness props=C04 tier=quick cost=30
+// @exec LimiterCollection::try_arg twice on -n,-s (state carried between the two steps through the real objects)
+// @sym both states/limits, two arguments of 1..3 bytes
+// @bounds two consecutive steps
+/// Two consecutive admissions account for both arguments: the second sees the state left by the first (no lost update,
+/// no double count), and a rejected argument leaves the chain able to admit exactly what it could before.
+#[kani::proof]
+#[kani::unwind(5)]
+#[kani::stub(alloc::fmt::format, fmt_stub)]
+#[kani::stub(alloc::raw_vec::handle_error, he_stub)]
+#[kani::stub(std::alloc::handle_alloc_error, hae_stub)]
+fn c04_chain_two_steps() {
+    let (ca, ma): (usize, usize) = (kani::any(), kani::any());
+    let (cs, ms): (usize, usize) = (kani::any(), kani::any());
+    kani::assume(ma >= 1 && ma < 1000 && ca <= ma && ms < 100_000 && cs <= ms);
+    let mut c = LimiterCollection { limiters: vec![
+        Box::new(MaxArgsCommandSizeLimiter { current_args: ca, max_args: ma }),
+        Box::new(MaxCharsCommandSizeLimiter { current_size: cs, max_chars: ms }),
+    ] };
+    let (a1, n1) = any_arg(ArgumentKind::SoftTerminated);
+    let (a2, n2) = any_arg(ArgumentKind::HardTerminated);
+    let r1 = c.try_arg(a1);
+    let ok1 = ca < ma && cs + n1 + 1 <= ms;
+    assert!(r1.is_ok() == ok1);
+    let (ca2, cs2) = if ok1 { (ca + 1, cs + n1 + 1) } else { (ca, cs) };
+    let r2 = c.try_arg(a2);
+    assert!(r2.is_ok() == (ca2 < ma && cs2 + n2 + 1 <= ms));
+    kani::cover!(ok1 && r2.is_err());
+    kani::cover!(!ok1 && r2.is_ok());
+    kani::cover!(ok1 && r2.is_ok());
+    std::mem::forget(r1); std::mem::forget(r2); std::mem::forget(c);
+}
+
+// ------------------------------------------------------------------------------------------ C06 system budget
+/// execve(2) acceptance for argv/envp sizes (fs/exec.c): strings incl. NULs + 8 bytes per pointer must fit in
+/// max(min(rlimit_stack/4, 6 MiB), 128 KiB); glibc's sysconf(_SC_ARG_MAX) = max(rlimit_stack/4, 128 KiB).
+fn kernel_accepts(rlim_stack: u64, strings_bytes: u64, nstrings: u64) -> bool {
+    let limit = std::cmp::max(std::cmp::min(rlim_stack / 4, 6 * 1024 * 1024), 131072);
+    strings_bytes + 8 * nstrings <= limit
+}
+fn budget_setup() -> (u64, u64, u64, u64, u64, u64) {
+    let rlim_stack: u64 = kani::any(); kani::assume(rlim_stack >= 512 * 1024 && rlim_stack <= (1u64 << 40));
+    let env_bytes: u64 = kani::any(); let envc: u64 = kani::any();
+    kani::assume(envc <= 10_000 && env_bytes >= envc * 2 && env_bytes <= 100_000);
+    let arg_max = std::cmp::max(rlim_stack / 4, 131072);
+    let budget = arg_max - 2048 - env_bytes; // the formula of new_system (checked against the code by c06_new_system_formula)
+    let n: u64 = kani::any(); let b: u64 = kani::any();
+    kani::assume(n <= (1u64 << 32) && b <= (1u64 << 40) && b >= n); // n accepted arguments, b bytes in total, each >= 1 byte
+    kani::assume(b + n <= budget);                                   // invariant of the limiter after accepting them
+    (rlim_stack, env_bytes, envc, budget, n, b)
+}
+
+// @harness props=C06 tier=quick cost=10
+// @exec MaxCharsCommandSizeLimiter::try_arg, count_osstr_chars_for_exec (one inductive step from a ghost state)
+// @sym RLIMIT_STACK 512 KiB..2^40, environment bytes/count, n arguments of b bytes already accepted (full width), one new 1-byte argument
+// @bounds one step; budget = sysconf(_SC_ARG_MAX) - 2048 - env bytes as in new_system
+// @assume kernel contract quoted from execve(2)/fs/exec.c; glibc _SC_ARG_MAX = max(rlimit_stack/4, 128 KiB)
+// @witness rlim_stack:u64 env_bytes:u64 envc:u64 n:u64 b:u64
+// @replay system_budget
+/// What the system limiter does guarantee: the strings (with terminators) of command line plus environment plus 2048 bytes
+/// of headroom fit in sysconf(_SC_ARG_MAX).  (The full kernel predicate is the known-finding twin.)
+#[kani::proof]
+#[kani::unwind(3)]
+#[kani::stub(alloc::fmt::format, fmt_stub)]
+#[kani::stub(alloc::raw_vec::handle_error, he_stub)]
+#[kani::stub(std::alloc::handle_alloc_error, hae_stub)]
+fn c06_system_budget_step() {
+    let (rlim_stack, env_bytes, _envc, budget, n, b) = budget_setup();
+    let mut l = MaxCharsCommandSizeLimiter { current_size: (b + n) as usize, max_chars: budget as usize };
+    let mut tail: [Box<dyn CommandSizeLimiter>; 1] = [Box::new(Tail { accept: true })];
+    let r = l.try_arg(Argument { arg: OsString::from("a"), kind: ArgumentKind::HardTerminated }, LimiterCursor { limiters: &mut tail[..] });
+    if r.is_ok() {
+        let (n2, b2) = (n + 1, b + 1);
+        assert!(b2 + n2 + env_bytes + 2048 <= std::cmp::max(rlim_stack / 4, 131072));
+    } else {
+        assert!(b + n + 2 > budget); // maximal: held back only because it does not fit
+    }
+    kani::cover!(r.is_ok() && n > 100_000);
+    kani::cover!(r.is_err());
+    std::mem::forget(r); std::mem::forget(tail);
+}
+#[kani::proof]
+#[kani::unwind(3)]
+#[kani::stub(alloc::fmt::format, fmt_stub)]
+#[kani::stub(alloc::raw_vec::handle_error, he_stub)]
+#[kani::stub(std::alloc::handle_alloc_error, hae_stub)]
+fn c06_system_budget_step_canary() {
+    let (_rlim_stack, _env_bytes, _envc, budget, n, b) = budget_setup();
+    let mut l = MaxCharsCommandSizeLimiter { current_size: (b + n) as usize, max_chars: budget as usize };
+    let mut tail: [Box<dyn CommandSizeLimiter>; 1] = [Box::new(Tail { accept: true })];
+    let r = l.try_arg(Argument { arg: OsString::from("a"), kind: ArgumentKind::HardTerminated }, LimiterCursor { limiters: &mut tail[..] });
+    assert!(r.is_ok()); // "the budget never runs out": must FAIL
+    std::mem::forget(r); std::mem::forget(tail);
+}
+/// Known-finding twin: the full kernel predicate (pointer cost and the 6 MiB cap).
+#[kani::proof]
+#[kani::unwind(3)]
+#[kani::stub(alloc::fmt::format, fmt_stub)]
+#[kani::stub(alloc::raw_vec::handle_error, he_stub)]
+#[kani::stub(std::alloc::handle_alloc_error, hae_stub)]
+fn c06_system_budget_step_kf() {
+    let (rlim_stack, env_bytes, envc, budget, n, b) = budget_setup();
+    let mut l = MaxCharsCommandSizeLimiter { current_size: (b + n) as usize, max_chars: budget as usize };
+    let mut tail: [Box<dyn CommandSizeLimiter>; 1] = [Box::new(Tail { accept: true })];
+    let r = l.try_arg(Argument { arg: OsString::from("a"), kind: ArgumentKind::HardTerminated }, LimiterCursor { limiters: &mut tail[..] });
+    if r.is_ok() {
+        let (n2, b2) = (n + 1, b + 1);
+        assert!(kernel_accepts(rlim_stack, b2 + n2 + env_bytes, n2 + envc), "accepted a command line execve rejects");
+    }
+    std::mem::forget(r); std::mem::forget(tail);
+}
+
+// ------------------------------------------------------------------------------------------ C19
+fn do_xargs_stub(_a: &[&str]) -> Result<CommandResult, XargsError> {
+    match kani::any::<u8>() % 10 {
+        0 => Ok(CommandResult::Success),
+        1 => Ok(CommandResult::Failure),
+        2 => Err(XargsError::CommandExecution(CommandExecutionError::UrgentlyFailed)),
+        3 => Err(XargsError::CommandExecution(CommandExecutionError::Killed { signal: kani::any() })),
+        4 => Err(XargsError::CommandExecution(CommandExecutionError::NotFound)),
+        5 => Err(XargsError::CommandExecution(CommandExecutionError::Unknown)),
+        6 => Err(XargsError::ArgumentTooLarge),
+        7 => Err(XargsError::CommandExecution(CommandExecutionError::CannotRun(io::Error::from_raw_os_error(13)))),
+        8 => Err(XargsError::Io(io::Error::from_raw_os_error(22))),
+        _ => Err(XargsError::Untyped(String::new())),
+    }
+}
+static mut LAST_VARIANT: u8 = 0;
+fn do_xargs_stub_tagged(a: &[&str]) -> Result<CommandResult, XargsError> {
+    let r = do_xargs_stub(a);
+    unsafe {
+        LAST_VARIANT = match &r {
+            Ok(CommandResult::Success) => 0, Ok(CommandResult::Failure) => 1,
+            Err(XargsError::CommandExecution(CommandExecutionError::UrgentlyFailed)) => 2,
+            Err(XargsError::CommandExecution(CommandExecutionError::Killed { .. })) => 3,
+            Err(XargsError::CommandExecution(CommandExecutionError::NotFound)) => 4,
+            Err(XargsError::CommandExecution(CommandExecutionError::Unknown)) => 5,
+            Err(XargsError::ArgumentTooLarge) => 6,
+            Err(XargsError::CommandExecution(CommandExecutionError::CannotRun(_))) => 7,
+            Err(XargsError::Io(_)) => 8,
+            Err(XargsError::Untyped(_)) => 9,
+        };
+    }
+    r
+}
+
+// @harness props=C19 tier=quick cost=15
+// @exec xargs_main (the mapping from do_xargs' result to the exit status)
+// @sym every variant of Result<CommandResult, XargsError>, any signal number
+// @bounds do_xargs replaced by a stub returning an arbitrary variant
+// @replay exit_code_map
+/// 0 all succeeded; 123 some invocation failed 1..125; 124 exit 255; 125 killed by signal; 126 cannot run; 127 not found; 1 own errors.
+#[kani::proof]
+#[kani::unwind(3)]
+#[kani::stub(alloc::fmt::format, fmt_stub)]
+#[kani::stub(do_xargs, do_xargs_stub_tagged)]
+#[kani::stub(std::io::_eprint, eprint_stub)]
+fn c19_exit_code_map() {
+    let code = xargs_main(&["xargs"]);
+    let v = unsafe { LAST_VARIANT };
+    let want = match v { 0 => 0, 1 => 123, 2 => 124, 3 => 125, 7 => 126, 4 => 127, _ => 1 };
+    assert!(code == want);
+    kani::cover!(code == 0); kani::cover!(code == 123); kani::cover!(code == 124); kani::cover!(code == 125);
+    kani::cover!(code == 126); kani::cover!(code == 127); kani::cover!(code == 1 && v == 6);
+}
+#[kani::proof]
+#[kani::unwind(3)]
+#[kani::stub(alloc::fmt::format, fmt_stub)]
+#[kani::stub(do_xargs, do_xargs_stub_tagged)]
+#[kani::stub(std::io::_eprint, eprint_stub)]
+fn c19_exit_code_map_canary() {
+    let code = xargs_main(&["xargs"]);
+    assert!(code != 125); // must FAIL
+}
+
+// @harness props=C19 tier=quick cost=5
+// @exec CommandResult::combine
+// @sym accumulated result and new outcome
+// @bounds one step (sticky failure over histories of any length)
+/// Once an invocation has failed the accumulated result stays Failure whatever follows.
+#[kani::proof]
+fn c19_combine_sticky() {
+    let acc_fail: bool = kani::any(); let new_fail: bool = kani::any();
+    let mut acc = if acc_fail { CommandResult::Failure } else { CommandResult::Success };
+    acc.combine(if new_fail { CommandResult::Failure } else { CommandResult::Success });
+    assert!(matches!(acc, CommandResult::Failure) == (acc_fail || new_fail));
+    kani::cover!(acc_fail && !new_fail);
+    kani::cover!(!acc_fail && !new_fail);
+}
+#[kani::proof]
+fn c19_combine_sticky_canary() {
+    let acc_fail: bool = kani::any(); let new_fail: bool = kani::any();
+    let mut acc = if acc_fail { CommandResult::Failure } else { CommandResult::Success };
+    acc.combine(if new_fail { CommandResult::Failure } else { CommandResult::Success });
+    assert!(matches!(acc, CommandResult::Failure) == new_fail); // "last one wins": must FAIL
+}
+
+static mut WAIT: i32 = 0;
+static mut SPAWN_ERR: i32 = 0;
+static mut NSTATUS: usize = 0;
+fn status_stub(_cmd: &mut Command) -> io::Result<std::process::ExitStatus> {
+    use std::os::unix::process::ExitStatusExt;
+    unsafe {
+        NSTATUS += 1;
+        if SPAWN_ERR != 0 { return Err(io::Error::from_raw_os_error(SPAWN_ERR)); }
+        Ok(std::process::ExitStatus::from_raw(WAIT))
+    }
+}
+
+// @harness props=C19 tier=quick cost=150 flags=nomem
+// @exec CommandBuilder::{new,add_arg,execute}, CommandBuilderOptions::new, LimiterCollection::{new,add,try_arg,clone}
+// @sym child wait status: exited with any code 0..255 or killed by signal 1..64; or spawn errno in {ENOENT, EACCES}
+// @bounds one invocation of a fixed two-word command with one appended argument; Command::status replaced by the symbolic outcome
+// @assume Linux wait-status encoding (exit code << 8, or signal number in the low 7 bits)
+// @replay classify_child
+/// exit 0 -> Success; 1..254 -> Failure; 255 -> UrgentlyFailed; signal -> Killed{signal}; ENOENT -> NotFound; other spawn error -> CannotRun.
+#[kani::proof]
+#[kani::unwind(4)]
+#[kani::stub(std::process::Command::status, status_stub)]
+#[kani::stub(alloc::fmt::format, fmt_stub)]
+#[kani::stub(std::hash::RandomState::new, keys_stub)]
+#[kani::stub(alloc::raw_vec::handle_error, he_stub)]
+#[kani::stub(std::alloc::handle_alloc_error, hae_stub)]
+fn c19_classify_child() {
+    let code: i32 = kani::any(); kani::assume(code >= 0 && code <= 255);
+    let sig: i32 = kani::any(); kani::assume(sig >= 1 && sig <= 64);
+    let exited: bool = kani::any();
+    let spawn_err: i32 = kani::any();
+    kani::assume(spawn_err == 0 || spawn_err == uucore::libc::ENOENT || spawn_err == uucore::libc::EACCES);
+    unsafe { WAIT = if exited { code << 8 } else { sig }; SPAWN_ERR = spawn_err; NSTATUS = 0; }
+    let mut limiters = LimiterCollection::new();
+    limiters.add(MaxCharsCommandSizeLimiter::new(100));
+    let env: HashMap<OsString, OsString> = HashMap::new();
+    let action = ExecAction::Command(vec![OsString::from("c"), OsString::from("i")]);
+    let bo = match CommandBuilderOptions::new(action, env, limiters, None) { Ok(b) => b, Err(e) => { std::mem::forget(e); assert!(false); return; } };
+    let mut b = CommandBuilder::new(&bo);
+    let r0 = b.add_arg(Argument { arg: OsString::from("x"), kind: ArgumentKind::HardTerminated });
+    assert!(r0.is_ok());
+    std::mem::forget(r0);
+    let r = b.execute();
+    unsafe { assert!(NSTATUS == 1); }
+    match &r {
+        Ok(CommandResult::Success) => assert!(spawn_err == 0 && exited && code == 0),
+        Ok(CommandResult::Failure) => assert!(spawn_err == 0 && exited && code >= 1 && code <= 254),
+        Err(CommandExecutionError::UrgentlyFailed) => assert!(spawn_err == 0 && exited && code == 255),
+        Err(CommandExecutionError::Killed { signal }) => assert!(spawn_err == 0 && !exited && *signal == sig),
+        Err(CommandExecutionError::NotFound) => assert!(spawn_err == uucore::libc::ENOENT),
+        Err(CommandExecutionError::CannotRun(_)) => assert!(spawn_err == uucore::libc::EACCES),
+        Err(CommandExecutionError::Unknown) => assert!(false),
+    }
+    kani::cover!(matches!(r, Err(CommandExecutionError::Killed { .. })));
+    kani::cover!(matches!(r, Err(CommandExecutionError::UrgentlyFailed)));
+    kani::cover!(matches!(r, Ok(CommandResult::Failure)) && code == 125);
+    kani::cover!(matches!(r, Err(CommandExecutionError::NotFound)));
+    std::mem::forget(r); std::mem::forget(bo);
+}
+#[kani::proof]
+#[kani::unwind(4)]
+#[kani::stub(std::process::Command::status, status_stub)]
+#[kani::stub(alloc::fmt::format, fmt_stub)]
+#[kani::stub(std::hash::RandomState::new, keys_stub)]
+#[kani::stub(alloc::raw_vec::handle_error, he_stub)]
+#[kani::stub(std::alloc::handle_alloc_error, hae_stub)]
+fn c19_classify_child_canary() {
+    let code: i32 = kani::any(); kani::assume(code >= 0 && code <= 255);
+    unsafe { WAIT = code << 8; SPAWN_ERR = 0; }
+    let mut limiters = LimiterCollection::new();
+    limiters.add(MaxCharsCommandSizeLimiter::new(100));
+    let env: HashMap<OsString, OsString> = HashMap::new();
+    let action = ExecAction::Command(vec![OsString::from("c")]);
+    let bo = match CommandBuilderOptions::new(action, env, limiters, None) { Ok(b) => b, Err(e) => { std::mem::forget(e); return; } };
+    let b = CommandBuilder::new(&bo);
+    let r = b.execute();
+    assert!(!matches!(r, Err(CommandExecutionError::UrgentlyFailed))); // must FAIL (exit 255)
+    std::mem::forget(r); std::mem::forget(bo);
+}
+
+// ------------------------------------------------------------------------------------------ C05
+fn resize_model<T: Clone, A: std::alloc::Allocator>(v: &mut Vec<T, A>, new_len: usize, value: T) {
+    if new_len <= v.len() { v.truncate(new_len); }
+    else { let target = if new_len > 4 { 4 } else { new_len }; while v.len() < target { v.push(value.clone()); } }
+}
+fn lossy_model(v: &[u8]) -> std::borrow::Cow<'_, str> { std::borrow::Cow::Borrowed(unsafe { std::str::from_utf8_unchecked(v) }) }
+
+struct Chunked<const N: usize, const C: usize> { data: [u8; N], chunks: [usize; C], k: usize, pos: usize }
+impl<const N: usize, const C: usize> Read for Chunked<N, C> {
+    fn read(&mut self, buf: &mut [u8]) -> io::Result<usize> {
+        if self.pos >= N || self.k >= C { return Ok(0); }
+        let n = self.chunks[self.k];
+        self.k += 1;
+        let mut j = 0;
+        while j < n { buf[j] = self.data[self.pos + j]; j += 1; }
+        self.pos += n;
+        Ok(n)
+    }
+}
+fn in_alphabet(c: u8, wide: bool) -> bool {
+    c == b'a' || c == b' ' || c == b'\n' || c == b'\'' || c == b'\\' || c == 0xA0
+        || (wide && (c == b'"' || c == b'\t' || c == 0x0B || c == 0x85))
+}
+fn is_sep(c: u8) -> bool { c == b' ' || c == b'\n' || c == b'\t' }
+
+/// Reference tokenizer (the property's wording): up to 2 tokens of at most N bytes.
+struct Model<const N: usize> { tok: [[u8; N]; 2], len: [usize; 2], hard: [bool; 2], ntok: usize, err: bool, ambiguous: bool }
+fn model<const N: usize>(data: &[u8; N]) -> Model<N> {
+    let mut m = Model { tok: [[0; N]; 2], len: [0; 2], hard: [false; 2], ntok: 0, err: false, ambiguous: false };
+    let (mut quote, mut slash, mut sawq, mut tn) = (0u8, false, false, 0usize);
+    let mut cur = [0u8; N];
+    let mut i = 0;
+    while i < N {
+        let c = data[i];
+        if quote != 0 { if c == quote { quote = 0; } else { cur[tn] = c; tn += 1; } }
+        else if slash { cur[tn] = c; tn += 1; slash = false; }
+        else if c == b'\'' || c == b'"' { quote = c; sawq = true; }
+        else if c == b'\\' { slash = true; }
+        else if is_sep(c) {
+            if tn > 0 {
+                if m.ntok < 2 { m.tok[m.ntok] = cur; m.len[m.ntok] = tn; m.hard[m.ntok] = c == b'\n'; }
+                m.ntok += 1; tn = 0; sawq = false;
+            } else if sawq { m.ambiguous = true; } // '' as a whole token: the property takes no position
+        }
+        else { cur[tn] = c; tn += 1; }
+        i += 1;
+    }
+    if quote != 0 { m.err = true; }
+    else if tn > 0 { if m.ntok < 2 { m.tok[m.ntok] = cur; m.len[m.ntok] = tn; m.hard[m.ntok] = false; } m.ntok += 1; }
+    else if sawq { m.ambiguous = true; }
+    m
+}
+
+fn run_ws<const N: usize, const C: usize>(chunks: [usize; C], wide: bool, calls: usize, canary: bool) {
+    let data: [u8; N] = kani::any();
+    let mut i = 0;
+    while i < N { kani::assume(in_alphabet(data[i], wide)); i += 1; }
+    let m = model(&data);
+    kani::assume(!m.ambiguous);
+    // an error is only guaranteed to surface once the reader reaches the unterminated quote: restrict multi-call runs
+    let mut rd = WhitespaceDelimitedArgumentReader::new(Chunked::<N, C> { data, chunks, k: 0, pos: 0 });
+    let mut k = 0;
+    let mut done = false;
+    while k < calls {
+        if !done {
+            let r = rd.next();
+            if canary {
+                // wrong on purpose: "every input yields an argument"
+                if k == 0 { assert!(matches!(r, Ok(Some(_)))); }
+                std::mem::forget(r);
+                std::mem::forget(rd);
+                return;
+            }
+            match &r {
+                Ok(Some(a)) => {
+                    assert!(k < m.ntok, "argument that is not in the input");
+                    let bytes = a.arg.as_encoded_bytes();
+                    assert!(bytes.len() == m.len[k]);
+                    let mut j = 0;
+                    while j < N { if j < m.len[k] { assert!(bytes[j] == m.tok[k][j]); } j += 1; }
+                    assert!((a.kind == ArgumentKind::HardTerminated) == m.hard[k]);
+                    assert!(a.kind != ArgumentKind::Initial);
+                }
+                Ok(None) => { assert!(k == m.ntok && !m.err); done = true; }
+                Err(_) => { assert!(m.err); done = true; }
+            }
+            std::mem::forget(r);
+        }
+        k += 1;
+    }
+    kani::cover!(m.ntok >= 1 && m.hard[0]);
+    kani::cover!(m.err);
+    kani::cover!(m.ntok == 0 && !m.err);
+    std::mem::forget(rd);
+}
+
+macro_rules! ws_harness {
+    ($name:ident, $canary:ident, $n:expr, $c:expr, $chunks:expr, $wide:expr, $calls:expr, $unwind:expr) => {
+        #[kani::proof]
+        #[kani::unwind($unwind)]
+        #[kani::stub(std::vec::Vec::resize, resize_model)]
+        #[kani::stub(alloc::fmt::format, fmt_stub)]
+        #[kani::stub(std::string::String::from_utf8_lossy, lossy_model)]
+        #[kani::stub(alloc::raw_vec::handle_error, he_stub)]
+        #[kani::stub(std::alloc::handle_alloc_error, hae_stub)]
+        fn $name() { run_ws::<$n, $c>($chunks, $wide, $calls, false); }
+        #[kani::proof]
+        #[kani::unwind($unwind)]
+        #[kani::stub(std::vec::Vec::resize, resize_model)]
+        #[kani::stub(alloc::fmt::format, fmt_stub)]
+        #[kani::stub(std::string::String::from_utf8_lossy, lossy_model)]
+        #[kani::stub(alloc::raw_vec::handle_error, he_stub)]
+        #[kani::stub(std::alloc::handle_alloc_error, hae_stub)]
+        fn $canary() { run_ws::<$n, $c>($chunks, $wide, $calls, true); }
+    };
+}
+
+// @harness props=C05 tier=quick cost=30 flags=nomem
+// @exec WhitespaceDelimitedArgumentReader::{new,next} — first call and the call after it
+// @sym 1 input byte over {letter, blank, newline, ', \, 0xA0}
+// @bounds input of 1 byte delivered by one read(); Vec::resize(4096) capped at 4 bytes; from_utf8_lossy = identity (bytes compared raw)
+// @replay ws_reader
+// leading/trailing/lone separators give no argument; a lone quote is an error; a lone backslash gives nothing
+ws_harness!(c05_ws_len1, c05_ws_len1_canary, 1, 1, [1], false, 2, 6);
+// @harness props=C05 tier=quick cost=120 flags=nomem
+// @exec WhitespaceDelimitedArgumentReader::{new,next} — two calls
+// @sym 2 input bytes over the 6-letter alphabet, one read() of 2 bytes
+// @bounds input of 2 bytes, chunking [2]; same cuts as c05_ws_len1
+// @replay ws_reader
+ws_harness!(c05_ws_len2, c05_ws_len2_canary, 2, 1, [2], false, 2, 6);
+// @harness props=C05 tier=quick cost=120 flags=nomem
+// @exec WhitespaceDelimitedArgumentReader::{new,next} — two calls
+// @sym 2 input bytes over the 6-letter alphabet, delivered as two 1-byte read() results
+// @bounds input of 2 bytes, chunking [1,1] (cut after a backslash, inside a quote, between separators); same oracle as [2] => chunk independence
+// @replay ws_reader
+ws_harness!(c05_ws_len2_split11, c05_ws_len2_split11_canary, 2, 2, [1, 1], false, 2, 6);
+// @harness props=C05 tier=thorough cost=900 flags=nomem
+// @exec WhitespaceDelimitedArgumentReader::{new,next} — two calls
+// @sym 3 input bytes over the 10-letter alphabet (adds ", tab, VT, 0x85), one read()
+// @bounds input of 3 bytes, chunking [3]
+ws_harness!(c05_ws_len3, c05_ws_len3_canary, 3, 1, [3], true, 2, 7);
+// @harness props=C05 tier=thorough cost=900 flags=nomem
+// @exec WhitespaceDelimitedArgumentReader::{new,next} — two calls
+// @sym 3 input bytes, 6-letter alphabet, chunking [1,2]
+// @bounds input of 3 bytes
+ws_harness!(c05_ws_len3_split12, c05_ws_len3_split12_canary, 3, 2, [1, 2], false, 2, 7);
+// @harness props=C05 tier=thorough cost=900 flags=nomem
+// @exec WhitespaceDelimitedArgumentReader::{new,next} — two calls
+// @sym 3 input bytes, 6-letter alphabet, chunking [2,1]
+// @bounds input of 3 bytes
+ws_harness!(c05_ws_len3_split21, c05_ws_len3_split21_canary, 3, 2, [2, 1], false, 2, 7);
+// @harness props=C05 tier=thorough cost=900 flags=nomem
+// @exec WhitespaceDelimitedArgumentReader::{new,next} — two calls
+// @sym 3 input bytes, 6-letter alphabet, chunking [1,1,1]
+// @bounds input of 3 bytes
+ws_harness!(c05_ws_len3_split111, c05_ws_len3_split111_canary, 3, 3, [1, 1, 1], false, 2, 7);
+// @harness props=C05 tier=quick cost=200 flags=nomem
+// @exec WhitespaceDelimitedArgumentReader::{new,next} — two calls
+// @sym 2 input bytes over the 10-letter alphabet (adds ", tab, VT, 0x85), one read()
+// @bounds input of 2 bytes, chunking [2]
+ws_harness!(c05_ws_len2_wide, c05_ws_len2_wide_canary, 2, 1, [2], true, 2, 6);
+
+// @harness props=C05,C11 tier=quick cost=20
+// @exec parse_delimiter
+// @sym operand of 1..3 symbolic ASCII bytes
+// @bounds operand length <= 3
+/// -d: total (no panic on short \x / \0 forms); a single non-backslash byte is that byte; longer non-escapes are rejected.
+#[kani::proof]
+#[kani::unwind(5)]
+#[kani::stub(alloc::fmt::format, fmt_stub)]
+#[kani::stub(alloc::raw_vec::handle_error, he_stub)]
+#[kani::stub(std::alloc::handle_alloc_error, hae_stub)]
+fn c05_parse_delimiter() {
+    let b: [u8; 3] = kani::any();
+    kani::assume(b[0] < 0x80 && b[1] < 0x80 && b[2] < 0x80);
+    let len: usize = kani::any();
+    kani::assume(len >= 1 && len <= 3);
+    let s = unsafe { std::str::from_utf8_unchecked(&b[..len]) };
+    let r = parse_delimiter(s);
+    if b[0] != b'\\' {
+        match &r { Ok(v) => assert!(len == 1 && *v == b[0]), Err(_) => assert!(len > 1) }
+    } else if len == 2 && b[1] != b'x' && b[1] != b'0' {
+        let want: Option<u8> = match b[1] { b'a' => Some(7), b'b' => Some(8), b'f' => Some(12), b'n' => Some(10), b'r' => Some(13), b't' => Some(9), b'v' => Some(11), b'\\' => Some(b'\\'), _ => None };
+        match &r { Ok(v) => assert!(want == Some(*v)), Err(_) => assert!(want.is_none()) }
+    }
+    kani::cover!(r.is_ok() && len == 1);
+    kani::cover!(r.is_ok() && len == 2);
+    kani::cover!(r.is_err() && len == 1);
+    std::mem::forget(r);
+}
+#[kani::proof]
+#[kani::unwind(5)]
+#[kani::stub(alloc::fmt::format, fmt_stub)]
+#[kani::stub(alloc::raw_vec::handle_error, he_stub)]
+#[kani::stub(std::alloc::handle_alloc_error, hae_stub)]
+fn c05_parse_delimiter_canary() {
+    let b: [u8; 2] = kani::any();
+    kani::assume(b[0] < 0x80 && b[1] < 0x80);
+    let s = unsafe { std::str::from_utf8_unchecked(&b[..]) };
+    let r = parse_delimiter(s);
+    assert!(r.is_err()); // "\n" is accepted: must FAIL
+    std::mem::forget(r);
+}
+
+// ------------------------------------------------------------------------------------------ process_input protocol
+// The batching loop with the limiter verdicts abstracted: CommandBuilder::{new,add_arg,execute} are replaced by
+// recorders whose verdicts/outcomes are symbolic scripts.  What the limiters answer is covered by the step harnesses;
+// what process_input does with their answers is covered here.
+const PI_MAXARGS: usize = 3;
+const PI_MAXEXEC: usize = 5;
+static mut PI_NBUILDERS: usize = 0;
+static mut PI_NADD: usize = 0;                       // add_arg calls so far
+static mut PI_REJECT: [bool; 6] = [false; 6];        // verdict script per add_arg call
+static mut PI_REJECT_CHARS: [bool; 6] = [false; 6];  // out_of_chars flag of that rejection
+static mut PI_NEXEC: usize = 0;
+static mut PI_OUTCOME: [u8; PI_MAXEXEC] = [0; PI_MAXEXEC];   // 0 ok, 1 failure, 2 urgent(255), 3 killed, 4 not found, 5 cannot run
+static mut PI_BATCH_LEN: [usize; PI_MAXEXEC] = [0; PI_MAXEXEC];
+static mut PI_BATCH: [[u8; PI_MAXARGS]; PI_MAXEXEC] = [[0; PI_MAXARGS]; PI_MAXEXEC];
+
+fn pi_new_stub<'a>(options: &'a CommandBuilderOptions) -> CommandBuilder<'a> where 'a: 'a {
+    unsafe { PI_NBUILDERS += 1; PI_CUR_LEN = 0; }
+    CommandBuilder { options, extra_args: Vec::new(), limiters: LimiterCollection { limiters: Vec::new() } }
+}
+fn pi_add_arg_stub<'a>(_this: &mut CommandBuilder<'a>, arg: Argument) -> Result<(), ExhaustedCommandSpace> where 'a: 'a {
+    unsafe {
+        let k = PI_NADD; PI_NADD += 1;
+        if k < 6 && PI_REJECT[k] { return Err(ExhaustedCommandSpace { arg, out_of_chars: PI_REJECT_CHARS[k] }); }
+        // the argument on offer is always the one read last
+        if PI_CUR_LEN < PI_MAXARGS { PI_CUR[PI_CUR_LEN] = b'0' + (PI_READS - 1) as u8; }
+        PI_CUR_LEN += 1;
+    }
+    std::mem::forget(arg);
+    Ok(())
+}
+fn pi_execute_stub<'a>(this: CommandBuilder<'a>) -> Result<CommandResult, CommandExecutionError> where 'a: 'a {
+    unsafe {
+        let b = PI_NEXEC; PI_NEXEC += 1;
+        let o = if b < PI_MAXEXEC { PI_BATCH_LEN[b] = PI_CUR_LEN; PI_BATCH[b] = PI_CUR; PI_OUTCOME[b] } else { 0 };
+        std::mem::forget(this);
+        match o {
+            0 => Ok(CommandResult::Success),
+            1 => Ok(CommandResult::Failure),
+            2 => Err(CommandExecutionError::UrgentlyFailed),
+            3 => Err(CommandExecutionError::Killed { signal: 9 }),
+            4 => Err(CommandExecutionError::NotFound),
+            _ => Err(CommandExecutionError::Unknown),
+        }
+    }
+}
+static mut PI_CUR: [u8; PI_MAXARGS] = [0; PI_MAXARGS];   // appended arguments of the builder under construction (ids)
+static mut PI_CUR_LEN: usize = 0;
+static mut PI_READS: usize = 0;
+static mut PI_N: usize = 0;
+static mut PI_HARD: [bool; PI_MAXARGS] = [false; PI_MAXARGS];
+struct IdReader { _pad: u8 }
+impl ArgumentReader for IdReader {
+    fn next(&mut self) -> io::Result<Option<Argument>> {
+        unsafe {
+            if PI_READS >= PI_MAXARGS || PI_READS >= PI_N { return Ok(None); }
+            let i = PI_READS; PI_READS += 1;
+            Ok(Some(Argument { arg: OsString::new(), kind: if PI_HARD[i] { ArgumentKind::HardTerminated } else { ArgumentKind::SoftTerminated } }))
+        }
+    }
+}
+
+fn run_process_input(canary: bool) {
+    let n: usize = kani::any(); kani::assume(n <= PI_MAXARGS);
+    unsafe {
+        PI_N = n; PI_HARD = kani::any(); PI_READS = 0; PI_CUR_LEN = 0;
+        PI_NBUILDERS = 0; PI_NADD = 0; PI_NEXEC = 0;
+        PI_REJECT = kani::any(); PI_REJECT_CHARS = kani::any();
+        PI_OUTCOME = kani::any();
+        kani::assume(PI_OUTCOME[0] < 5 && PI_OUTCOME[1] < 5 && PI_OUTCOME[2] < 5 && PI_OUTCOME[3] < 5 && PI_OUTCOME[4] < 5);
+        PI_BATCH_LEN = [0; PI_MAXEXEC];
+    }
+    let exit_x: bool = kani::any();
+    let have_n: bool = kani::any(); let have_l: bool = kani::any();
+    let no_run_if_empty: bool = kani::any();
+    let env: HashMap<OsString, OsString> = HashMap::new();
+    let bo = CommandBuilderOptions { action: ExecAction::Echo, env, limiters: LimiterCollection { limiters: Vec::new() }, verbose: false, close_stdin: false, replace: None };
+    let opts = InputProcessOptions::new(exit_x, if have_n { Some(1) } else { None }, if have_l { Some(1) } else { None }, no_run_if_empty);
+    let r = process_input(&bo, Box::new(IdReader { _pad: 0 }), &opts);
+
+    // ---- reference protocol, straight from the property ----
+    // walk the arguments; k = index of the next add_arg verdict
+    let (mut k, mut nexec) = (0usize, 0usize);
+    let mut cur_len = 0usize;                  // appended arguments in the invocation under construction
+    let mut want: [[u8; PI_MAXARGS]; PI_MAXEXEC] = [[0; PI_MAXARGS]; PI_MAXEXEC];
+    let mut want_len = [0usize; PI_MAXEXEC];
+    let mut cur = [0u8; PI_MAXARGS];
+    let mut pending = false;
+    let mut failed = false;
+    let mut fatal: u8 = 0;       // 0 none, 2.. = outcome code that stopped the run
+    let mut too_large = false;
+    let mut i = 0;
+    unsafe {
+        while i < PI_MAXARGS {
+            if i < n && fatal == 0 && !too_large {
+                let id = b'0' + i as u8;
+                let rej = PI_REJECT[k]; let rej_chars = PI_REJECT_CHARS[k]; k += 1;
+                if rej {
+                    if rej_chars && exit_x && (have_n || have_l) { too_large = true; }
+                    else {
+                        if pending {
+                            // flush what we have
+                            want[nexec] = cur; want_len[nexec] = cur_len;
+                            let o = PI_OUTCOME[nexec]; nexec += 1;
+                            if o == 1 { failed = true; } else if o >= 2 { fatal = o; }
+                        }
+                        if fatal == 0 {
+                            cur_len = 0;
+                            let rej2 = PI_REJECT[k]; k += 1;
+                            if rej2 { too_large = true; } else { cur[0] = id; cur_len = 1; pending = true; }
+                        }
+                    }
+                } else { cur[cur_len] = id; cur_len += 1; pending = true; }
+            }
+            i += 1;
+        }
+        if fatal == 0 && !too_large && (!no_run_if_empty || pending) {
+            want[nexec] = cur; want_len[nexec] = cur_len;
+            let o = PI_OUTCOME[nexec]; nexec += 1;
+            if o == 1 { failed = true; } else if o >= 2 { fatal = o; }
+        }
+        if canary {
+            // wrong on purpose: "a failing invocation stops the run"
+            if failed { assert!(PI_NEXEC == 1); }
+            std::mem::forget(r); std::mem::forget(bo);
+            return;
+        }
+        // ---- compare ----
+        assert!(PI_NEXEC == nexec, "number of invocations");
+        let mut b = 0;
+        while b < PI_MAXEXEC {
+            if b < nexec {
+                assert!(PI_BATCH_LEN[b] == want_len[b], "batch size");
+                let mut j = 0;
+                while j < PI_MAXARGS { if j < want_len[b] { assert!(PI_BATCH[b][j] == want[b][j], "batch content / order"); } j += 1; }
+            }
+            b += 1;
+        }
+        // direct statement of "lossless, order-preserving, nothing merged or split"
+        if r.is_ok() {
+            let mut seq = 0usize; let mut b = 0;
+            while b < PI_MAXEXEC {
+                if b < PI_NEXEC {
+                    let mut j = 0;
+                    while j < PI_MAXARGS { if j < PI_BATCH_LEN[b] { assert!(PI_BATCH[b][j] == b'0' + seq as u8); seq += 1; } j += 1; }
+                    if n > 0 { assert!(PI_BATCH_LEN[b] >= 1, "an invocation without appended arguments"); }
+                }
+                b += 1;
+            }
+            assert!(seq == n, "an input argument was lost or duplicated");
+        }
+        match &r {
+            Ok(CommandResult::Success) => assert!(fatal == 0 && !too_large && !failed),
+            Ok(CommandResult::Failure) => assert!(fatal == 0 && !too_large && failed),
+            Err(XargsError::ArgumentTooLarge) => assert!(too_large),
+            Err(XargsError::CommandExecution(CommandExecutionError::UrgentlyFailed)) => assert!(fatal == 2),
+            Err(XargsError::CommandExecution(CommandExecutionError::Killed { .. })) => assert!(fatal == 3),
+            Err(XargsError::CommandExecution(CommandExecutionError::NotFound)) => assert!(fatal == 4),
+            Err(_) => assert!(false),
+        }
+        kani::cover!(nexec == 3 && failed && fatal == 0);
+        kani::cover!(too_large && nexec == 1);
+        kani::cover!(fatal == 2 && nexec == 2 && n == 3);
+        kani::cover!(n == 0 && nexec == 1);
+        kani::cover!(n == 0 && nexec == 0);
+        kani::cover!(nexec == 2 && want_len[0] == 2 && want_len[1] == 1);
+    }
+    std::mem::forget(r); std::mem::forget(bo);
+}
+
+// @harness props=C04,C19,C20 tier=quick cost=300 flags=nomem
+// @exec process_input (the whole batching loop), CommandResult::combine, XargsError::from
+// @sym 0..3 input arguments (any line structure); the verdict of every add_arg call (accept / reject, out_of_chars or not); the outcome of every invocation (success, failure 1..125, exit 255, killed, not found); -x, -n/-L present, -r
+// @bounds at most 3 input arguments, 6 add_arg calls, 5 invocations; CommandBuilder::{new,add_arg,execute} replaced by recorders with symbolic verdicts/outcomes (the limiters' own answers are covered by c04_limiter_step_*, c04_chain_*)
+// @replay process_input
+/// Given any sequence of limiter verdicts: the executed batches, concatenated, are the input in order (nothing lost, duplicated
+/// or reordered); a batch is flushed only when the next argument was rejected, which is then retried in a fresh invocation and
+/// is "too large" if rejected again; -x with -n/-L makes a -s overflow fatal; empty input runs once unless -r; the run stops at the
+/// first invocation that exits 255 / is killed / cannot be found, failures 1..125 are sticky, and the result is the documented one.
+#[kani::proof]
+#[kani::unwind(7)]
+#[kani::stub(CommandBuilder::new, pi_new_stub)]
+#[kani::stub(CommandBuilder::add_arg, pi_add_arg_stub)]
+#[kani::stub(CommandBuilder::execute, pi_execute_stub)]
+#[kani::stub(alloc::fmt::format, fmt_stub)]
+#[kani::stub(std::hash::RandomState::new, keys_stub)]
+#[kani::stub(alloc::raw_vec::handle_error, he_stub)]
+#[kani::stub(std::alloc::handle_alloc_error, hae_stub)]
+fn c04_process_input_protocol() { run_process_input(false); }
+#[kani::proof]
+#[kani::unwind(7)]
+#[kani::stub(CommandBuilder::new, pi_new_stub)]
+#[kani::stub(CommandBuilder::add_arg, pi_add_arg_stub)]
+#[kani::stub(CommandBuilder::execute, pi_execute_stub)]
+#[kani::stub(alloc::fmt::format, fmt_stub)]
+#[kani::stub(std::hash::RandomState::new, keys_stub)]
+#[kani::stub(alloc::raw_vec::handle_error, he_stub)]
+#[kani::stub(std::alloc::handle_alloc_error, hae_stub)]
+fn c04_process_input_protocol_canary() { run_process_input(true); }
+
